@@ -12,6 +12,14 @@ CLAIMED = {
              "Lean/Mathlib; _gradient_iterative's traversal and gradient_quadratic_form are bounded/trusted (listed in evidence); "
              "known findings D2, D3 are listed in known_findings.json",
         design="6 C02"),
+    "C04": dict(
+        text="The recursive degree routine, its cached/dispatching wrappers, Expression.degree (memo slot) and is_linear/is_quadratic are "
+             "symbolically executed per node kind; a reported degree d is proved to bound a structural degree function whose soundness "
+             "against MvPolynomial.totalDegree is the Lean-checked spec table (C, X, +, -, neg, *, ^n, /c, finite sums). Unbounded in tree "
+             "size and vector length (loop invariants with prefix folds).",
+        note="A1, A5, A7 (no division by a literal 0); the memo slot _degree is written only by Expression.degree (scan); "
+             "_compute_degree_iterative's stack discipline is bounded (C15); known findings D6, D7",
+        design="6 C04"),
 }
 
 NOT_YET = "check not built yet (work in progress; see DESIGN.md section 6 for the plan)"
